@@ -34,6 +34,24 @@ Lemma gen_wild_prefix :
   set_wildp = [42; 46] /\ remove_wildp = [42; 46] /\ persist_wildp = [42; 46] /\
   set_wild_skip = 2 /\ remove_wild_skip = 2.
 Proof. repeat split; reflexivity. Qed.
+(* dns.CanonicalName / IsFqdn: the hand-written Model.canonical IS the model the translator
+   uses for these calls under "ascii_strings" (Common.GoList.go_canonical_name_ascii, compared
+   with the Go library on generated names by the translator's self-test) *)
+Lemma gen_canonical (s : str) : go_canonical_name_ascii s = canonical s.
+Proof.
+  unfold go_canonical_name_ascii, canonical, go_fqdn_ascii, fqdn, go_ascii_lower.
+  assert (F : go_is_fqdn_ascii s = is_fqdn s).
+  { unfold go_is_fqdn_ascii, is_fqdn. destruct (rev s) as [|c r]; [reflexivity|].
+    assert (T : forall r, go_trailing_backslashes r = count_bs r).
+    { induction r0 as [|x r0 IH]; [reflexivity|]. cbn [go_trailing_backslashes count_bs].
+      unfold c_bs. destruct (x =? 92) eqn:E.
+      - apply N.eqb_eq in E. subst x. now rewrite IH.
+      - destruct x as [|p]; [reflexivity|]. repeat (destruct p as [p|p|]; try reflexivity); cbn in E; discriminate. }
+    unfold c_dot. destruct (c =? 46) eqn:E.
+    - apply N.eqb_eq in E. subst c. cbn [andb]. now rewrite T.
+    - destruct c as [|p]; [reflexivity|]. repeat (destruct p as [p|p|]; try reflexivity); cbn in E; discriminate. }
+  rewrite F. destruct (is_fqdn s); apply map_ext; intros c; reflexivity.
+Qed.
 (* persistable is translated from the source (stage-3 translator, "ascii_strings":
    strings.IndexFunc(s, unicode.IsSpace) as Common.GoList.go_index_space_ascii).  The
    translation is exact for ASCII keys only — outside ASCII the library also finds the
